@@ -108,7 +108,7 @@ def check_case(ir):
                     continue
                 n += 1
                 if hp not in (None, "ok"):
-                    items.append(("C05/%s/hybrid-parser-raises/%s" % (tag, hp), {}))
+                    items.append(("C05/%s/hybrid-parser-raises/%s" % (v, hp), {"config": tag}))
                 k = count_pks(src)
                 if k != 1:
                     items.append(("C05/%s/primary-keys-%s" % (tag, "none" if k == 0 else "several"), {"count": k, "source": src[:400]}))
@@ -119,7 +119,7 @@ def check_case(ir):
                         extra = [x for x in det["out"] if x not in det["in"]]
                         if extra == ["id"]:
                             continue        # the forced / inferred surrogate key is the documented normalisation
-                    items.append(("C05/%s/%s" % (tag, cls), det))
+                    items.append(("C05/roundtrip/%s" % cls, dict(det, config=tag)))
             # interchangeability: the three emissions of one interface parse to the same columns
             keys = [v for v in VARIANTS if v in outs]
             for a, b in zip(keys, keys[1:]):
